@@ -283,7 +283,18 @@ func c03Property(t *rapid.T) {
 	shapes := map[string]bool{}
 	nMsgs := rapid.IntRange(1, 40).Draw(t, "history")
 	for i := 0; i < nMsgs && s.r.V.IsLoggedOn(); i++ {
-		switch rapid.SampledFrom([]string{"app", "app", "app", "heartbeat", "testreq", "reject", "refresh"}).Draw(t, "kind") {
+		switch rapid.SampledFrom([]string{"app", "app", "app", "heartbeat", "testreq", "reject", "refresh", "skip"}).Draw(t, "kind") {
+		case "skip":
+			// the operator moves the outbound counter forward through the API: numbers that were never
+			// used stay without a stored message (a hole in the history, to be gap-filled like
+			// administrative messages); a Heartbeat follows so that the last number is a used one
+			k := rapid.IntRange(1, 6).Draw(t, "skip-by")
+			if err := s.r.Store().SetNextSenderMsgSeqNum(s.r.S() + k); err != nil {
+				t.Fatalf("harness: SetNextSenderMsgSeqNum: %v", err)
+			}
+			s.logf("API: outbound counter moved forward by %d", k)
+			record(s.r.Timeout(1), "")
+			shapes["hole-in-the-history"] = true
 		case "refresh":
 			// what RefreshOnLogon / a restart does to a persistent store: re-read it from its backing files
 			if err := s.r.Store().Refresh(); err != nil {
@@ -583,6 +594,25 @@ func TestReplay_C03_Fixed(t *testing.T) {
 		st := s.r.In(s.p.Frame("2", s.r.T(), []fixwire.Field{fixwire.F(7, "5"), fixwire.F(16, "9")}, peer.Opt{}))
 		if outs := s.r.Outs(st); len(outs) != 0 {
 			vk.Violation(t, c, "C03/reply-to-empty-range/persist=false/dict=false", "reply to an empty range: %s", vk.Show(outs[0].Raw))
+		}
+	})
+	vk.Guard(func() {
+		// (3) numbers skipped through the API (no stored message) at the end of the requested range
+		// are covered by the closing gap fill: 1 Logon, 2 Heartbeat, 3 skipped, 4 Heartbeat
+		s := newSim(t, c, simCfg{begin: "FIX.4.4", hb: 30, store: "memory", settings: map[string]string{}})
+		defer s.close()
+		if !s.logon(0) {
+			t.Fatalf("harness: logon failed")
+		}
+		s.r.Timeout(1)
+		_ = s.r.Store().SetNextSenderMsgSeqNum(s.r.S() + 1)
+		s.r.Timeout(1)
+		for _, rng := range [][2]string{{"2", "3"}, {"3", "3"}} {
+			st := s.r.In(s.p.Frame("2", s.r.T(), []fixwire.Field{fixwire.F(7, rng[0]), fixwire.F(16, rng[1])}, peer.Opt{}))
+			outs := s.r.Outs(st)
+			if len(outs) != 1 || outs[0].MsgType != "4" || fixwire.GetS(outs[0].Fields, 36) != "4" || fixwire.GetS(outs[0].Fields, 34) != rng[0] {
+				vk.Violation(t, c, "C03/coverage-ends-early-or-late/persist=true/dict=false", "ResendRequest(%s,%s) over a history with a hole at 3 must be answered by one gap fill %s -> 4\n%s", rng[0], rng[1], rng[0], s.history())
+			}
 		}
 	})
 }
